@@ -64,7 +64,7 @@ class Poison:
 
 
 # ---------------------------------------------------------------- generator
-def gen_program(rng, role, nobj, nops):
+def gen_program(rng, role, nobj, nops, blobs=()):
     ops = []
     i = 0
     while i < nops:
@@ -72,6 +72,8 @@ def gen_program(rng, role, nobj, nops):
         grp = sorted(rng.sample(range(nobj), min(nobj, rng.choice([1, 2, 2, 3, 4]))))
         if rng.random() < 0.02:
             ops.append(['ic'])
+        if blobs and rng.random() < 0.12:
+            ops.append(['ro', rng.choice(list(blobs))])     # read a Blob and keep the reader file open
         if role == 'reader':
             if r < 0.62:
                 ops.append(['r', grp])
@@ -121,22 +123,27 @@ def gen_program(rng, role, nobj, nops):
 def gen_case(rng, thorough, idx):
     nconn = rng.choice([2, 2, 3, 3, 4] if thorough else [2, 2, 3, 3])
     nobj = rng.choice([2, 3, 4, NOBJ_MAX])
-    kind = rng.choice(['file', 'map'])
+    kind = rng.choice(['file', 'file', 'file', 'map', 'map', 'map', 'mvccmap'])
+    blobs = sorted(rng.sample(range(nobj), rng.choice([1, 1, 2]))) if kind == 'file' and rng.random() < 0.35 else []
+    # a second database whose objects are used through get_connection(): the group of connections
+    # goes back to the pool together and is handed to whichever thread opens next
+    nobj2 = rng.choice([1, 2, 3]) if kind != 'mvccmap' and rng.random() < 0.2 else 0
     roles = ['writer', 'reader'] + [rng.choice(['writer', 'reader', 'mixed']) for _ in range(nconn - 2)]
     progs = {}
     for t, role in enumerate(roles):
         role2 = role if role != 'mixed' else rng.choice(['writer', 'reader'])
-        progs['t%d' % t] = gen_program(rng, role2, nobj, rng.choice([4, 6, 8, 10]))
-    if kind != 'file':
+        progs['t%d' % t] = gen_program(rng, role2, nobj + nobj2, rng.choice([4, 6, 8, 10]), blobs)
+        if nobj2 and rng.random() < 0.7:
+            progs['t%d' % t][rng.randrange(len(progs['t%d' % t]) + 1):0] = [['x']]
+    if kind != 'file' or nobj2:
         progs = {t: [op for op in ops if op[0] not in ('u', 'um')] for t, ops in progs.items()}
-    blobs = sorted(rng.sample(range(nobj), rng.choice([1, 1, 2]))) if kind == 'file' and rng.random() < 0.35 else []
     pack = kind == 'file' and rng.random() < (0.25 if thorough else 0.15)
     if pack:
         progs['pk'] = [['pack']] * rng.choice([1, 1, 2])
     return dict(kind=kind, nobj=nobj, progs=progs, seed=rng.randrange(1 << 30),
                 stick=rng.choice([0.0, 0.3, 0.6, 0.8, 0.9]), pool=7,
                 explicit=rng.random() < 0.2, garbage=rng.choice([0, 1, 2]),
-                clock_step=rng.choice([1.0, 1.0, 0.0, 0.0, 0.001]), blobs=blobs,
+                clock_step=rng.choice([1.0, 1.0, 0.0, 0.0, 0.001]), blobs=blobs, nobj2=nobj2,
                 pct=[rng.choice([1, 2, 3]), rng.choice([100, 300, 800])] if rng.random() < 0.35 else None)
 
 
@@ -196,7 +203,8 @@ class Run:
         self.ev = 0                 # global event counter (total order of instrumentation points)
         self.commits = []           # dict(tid, thread, ret)   ret = counter when tpc_finish returned
         self.epochs = []            # dict(thread, conn, begin, end_poll, start, reads, owns, inval)
-        self.cur = {}               # thread name -> current epoch
+        self.cur = {}               # (thread name, id(storage instance)) -> current epoch
+        self.st_off = {}            # id(storage) / id(shared _data) -> oid offset of its database
         self.pending = {}           # thread name -> {oid: stamp}
         self.errors = []
         self.loads = {}             # thread -> number of storage loads (to tell hit from miss)
@@ -209,6 +217,13 @@ class Run:
     def tick(self):
         self.ev += 1
         return self.ev
+
+    def off_of(self, inst):
+        """oid offset of the database a storage instance belongs to (0 for the first / only one)"""
+        for key in (getattr(inst, '_storage', None), getattr(inst, '_data', None)):
+            if key is not None and id(key) in self.st_off:
+                return self.st_off[id(key)]
+        return 0
 
 
 def tname():
@@ -224,6 +239,20 @@ def instrumented(run):
     cls = M.MVCCAdapterInstance
     o_poll, o_fin, o_load = cls.poll_invalidations, cls.tpc_finish, cls.load
 
+    def new_epoch(self, t, begin, start, r):
+        off = run.off_of(self)
+        ep = dict(thread=t, begin=begin, end_poll=run.tick(), start=start, reads=[], owns=[], off=off,
+                  inval=None if r is None else sorted(u64(o) + off for o in r))
+        run.epochs.append(ep)
+        run.cur[(t, id(self))] = ep
+
+    def log_commit(self, t, tid):
+        off = run.off_of(self)
+        mine = {o: v for o, v in run.pending.get(t, {}).items() if (o >> 40 << 40) == off}
+        run.commits.append(dict(tid=u64(tid), thread=t, ret=run.tick(), oids=sorted(mine), off=off))
+        for o, v in mine.items():
+            run.values[(o, u64(tid))] = v
+
     def poll_invalidations(self):
         t = tname()
         if t is None:
@@ -236,19 +265,39 @@ def instrumented(run):
         finally:
             if run.tracer:
                 run.tracer.leave_poll(t, self)
-        ep = dict(thread=t, begin=begin, end_poll=run.tick(), start=u64(self._start), reads=[], owns=[],
-                  inval=None if r is None else sorted(u64(o) for o in r))
-        run.epochs.append(ep)
-        run.cur[t] = ep
+        new_epoch(self, t, begin, u64(self._start), r)
         return r
 
     def tpc_finish(self, transaction, func=lambda tid: None):
         t = tname()
         tid = o_fin(self, transaction, func)
-        run.commits.append(dict(tid=u64(tid), thread=t, ret=run.tick(), oids=sorted(run.pending.get(t, {}))))
-        for o, v in run.pending.get(t, {}).items():
-            run.values[(o, u64(tid))] = v
+        log_commit(self, t, tid)
         return tid
+
+    # the bundled storage with native MVCC support (DB uses it without the adapter)
+    from ZODB.tests.MVCCMappingStorage import MVCCMappingStorage as N
+    n_poll, n_fin, n_load = N.poll_invalidations, N.tpc_finish, N.load
+
+    def native_poll(self):
+        t = tname()
+        if t is None:
+            return n_poll(self)
+        begin = run.tick()
+        r = n_poll(self)
+        new_epoch(self, t, begin, None, r)
+        return r
+
+    def native_finish(self, transaction, func=lambda tid: None):
+        t = tname()
+        tid = n_fin(self, transaction, func)
+        log_commit(self, t, tid)
+        return tid
+
+    def native_load(self, oid, version=''):
+        t = tname()
+        if t is not None:
+            run.loads[t] = run.loads.get(t, 0) + 1
+        return n_load(self, oid, version)
 
     def load(self, oid):
         t = tname()
@@ -280,25 +329,45 @@ def instrumented(run):
             func(tid)
         r = o_ufin(self, transaction, f)
         if got:
-            run.commits.append(dict(tid=u64(got[0]), thread=tname(), ret=run.tick(), undo=True,
+            run.commits.append(dict(tid=u64(got[0]), thread=tname(), ret=run.tick(), undo=True, off=0,
                                     oids=sorted(u64(o) for o in self._undone)))
         return r
 
     cls.poll_invalidations, cls.tpc_finish, cls.load = poll_invalidations, tpc_finish, load
     ucls.tpc_finish = undo_tpc_finish
+    N.poll_invalidations, N.tpc_finish, N.load = native_poll, native_finish, native_load
     try:
         yield
     finally:
         cls.poll_invalidations, cls.tpc_finish, cls.load = o_poll, o_fin, o_load
         ucls.tpc_finish = o_ufin
+        N.poll_invalidations, N.tpc_finish, N.load = n_poll, n_fin, n_load
 
 
-def worker(run, db, name, ops, nobj, explicit, stamps):
+def worker(run, db, name, ops, nobj, explicit, stamps, nobj2=0):
     import transaction
     from ZODB.POSException import ConflictError
     from ZODB.utils import u64
     tm = transaction.TransactionManager(explicit=explicit)
-    st = dict(conn=None, objs=None, sps=[])
+    st = dict(conn=None, objs=None, sps=[], held=[])
+
+    def goid(obj):
+        """oid made unique over the databases of the case"""
+        return u64(obj._p_oid) + run.off_of(obj._p_jar._normal_storage)
+
+    def drop_held():
+        for _g, f in st['held']:
+            try:
+                f.close()
+            except Exception:   # noqa: BLE001
+                pass
+        st['held'] = []
+
+    def conns():
+        return list(st['conn'].connections.values()) if st['conn'] is not None else []
+
+    def epoch_of(obj):
+        return run.cur[(name, id(obj._p_jar._normal_storage))]
     run.pending[name] = {}
     tr = run.tracer
 
@@ -311,22 +380,29 @@ def worker(run, db, name, ops, nobj, explicit, stamps):
         finally:
             run.pending[name] = {}
             st['sps'] = []
-            cur = run.cur.get(name)
-            if cur is None or cur['begin'] < idx:
-                ep = dict(thread=name, begin=idx, end_poll=run.tick(), start=None, reads=[], owns=[],
-                          inval=None, synthetic=True)
-                run.epochs.append(ep)
-                run.cur[name] = ep
+            for c in conns():
+                inst = c._normal_storage
+                cur = run.cur.get((name, id(inst)))
+                if cur is None or cur['begin'] < idx:
+                    ep = dict(thread=name, begin=idx, end_poll=run.tick(), start=None, reads=[], owns=[],
+                              inval=None, synthetic=True, off=run.off_of(inst))
+                    run.epochs.append(ep)
+                    run.cur[(name, id(inst))] = ep
 
     def opn():
         def f():
             st['conn'] = db.open(tm)
+            if nobj2:
+                st['conn'].get_connection('two')
             if explicit:
                 tm.begin()
         boundary(f)
         root = st['conn'].root()
         st['objs'] = [root['k%d' % i] for i in range(nobj)]
-        st['index'] = {u64(o._p_oid): i for i, o in enumerate(st['objs'])}
+        if nobj2:
+            root2 = st['conn'].get_connection('two').root()
+            st['objs'] += [root2['k%d' % i] for i in range(nobj2)]
+        st['index'] = {goid(o): i for i, o in enumerate(st['objs'])}
 
     def do_savepoint():
         sp = tm.savepoint()
@@ -352,7 +428,7 @@ def worker(run, db, name, ops, nobj, explicit, stamps):
 
     def read(i):
         obj = st['objs'][i]
-        oid = u64(obj._p_oid)
+        oid = goid(obj)
         before = run.loads.get(name, 0)
         ghost = obj._p_changed is None
         if tr:
@@ -361,7 +437,7 @@ def worker(run, db, name, ops, nobj, explicit, stamps):
         hit = run.loads.get(name, 0) == before
         if tr:
             tr.post_read(name, st['conn'], oid, hit, u64(obj._p_serial), v)
-        ep = run.cur[name]
+        ep = epoch_of(obj)
         if oid in run.pending[name]:
             ep['owns'].append((oid, v, run.pending[name][oid], run.tick()))
         else:
@@ -464,8 +540,11 @@ def worker(run, db, name, ops, nobj, explicit, stamps):
                     for i in op[1]:
                         read(i)                      # the base state is a read of this epoch too
                         obj = st['objs'][i]
+                        for g, f in [h for h in st['held'] if h[0] == goid(obj)]:
+                            f.close()               # (a Blob cannot be opened for writing while read)
+                            st['held'].remove((g, f))
                         set_value(obj, stamp)
-                        run.pending[name][u64(obj._p_oid)] = stamp
+                        run.pending[name][goid(obj)] = stamp
                         if tr:
                             tr.write(name, st['conn'], u64(obj._p_oid), stamp)
                 elif k in ('c', 'cv'):
@@ -474,6 +553,12 @@ def worker(run, db, name, ops, nobj, explicit, stamps):
                     boundary(do_abort)
                 elif k == 'b':
                     boundary(do_begin)
+                elif k == 'ro':
+                    read(op[1])
+                    obj = st['objs'][op[1]]
+                    if hasattr(obj, 'open') and len(st['held']) < 4 and goid(obj) not in run.pending[name]:
+                        st['held'].append((goid(obj), obj.open('r')))       # stays open across boundaries
+                        run.errors.append((name, 'blob-reader-held', 'ok'))
                 elif k == 'sp':
                     do_savepoint()
                 elif k == 'rb':
@@ -486,12 +571,15 @@ def worker(run, db, name, ops, nobj, explicit, stamps):
                     import ZODB.Connection
                     boundary(lambda: do_abort(False))
                     ZODB.Connection.resetCaches()
+                    drop_held()
                     st['conn'].close()
                     opn()
                 elif k == 'ic':
-                    db._mvcc_storage.invalidateCache()   # what a storage does after a reconnect
+                    if hasattr(db._mvcc_storage, 'invalidateCache'):
+                        db._mvcc_storage.invalidateCache()   # what a storage does after a reconnect
                 elif k == 'x':
                     boundary(lambda: do_abort(False))
+                    drop_held()
                     st['conn'].close()
                     opn()
             except ConflictError as e:          # ReadConflictError of a load (simultaneous pack)
@@ -499,6 +587,7 @@ def worker(run, db, name, ops, nobj, explicit, stamps):
                 boundary(do_abort)
     finally:
         try:
+            drop_held()
             if tr:
                 tr.abort(name, st['conn'])
             tm.abort()
@@ -515,17 +604,17 @@ def packer(run, db, ops, t_pack):
             run.errors.append(('pk', 'pack', type(e).__name__ + ':' + str(e)[:80]))
 
 
-def storage_revisions(st):
+def storage_revisions(st, off=0, revs=None):
     from ZODB.tests.StorageTestBase import zodb_unpickle
     from ZODB.utils import u64
-    revs = {}
+    revs = {} if revs is None else revs
     for txn in st.iterator():
         for r in txn:
             try:
                 v = getattr(zodb_unpickle(r.data), 'value', None) if r.data is not None else None
             except Exception:   # noqa: BLE001
                 v = None
-            revs.setdefault(u64(r.oid), []).append((u64(r.tid), v))
+            revs.setdefault(u64(r.oid) + off, []).append((u64(r.tid), v))
     for l in revs.values():
         l.sort()
     return revs
@@ -567,8 +656,21 @@ def run_case(case, tmp, with_trace=False, schedule=None):
             rec.record = lambda ev: None        # the byte trace is not needed here
             st = FileStorage(os.path.join(d, 'Data.fs'),
                              blob_dir=os.path.join(d, 'blobs') if case.get('blobs') else None)
+        elif case['kind'] == 'mvccmap':
+            from ZODB.tests.MVCCMappingStorage import MVCCMappingStorage
+            st = MVCCMappingStorage()
         else:
             st = MappingStorage()
+        nobj2 = case.get('nobj2', 0)
+        st2 = None
+        if nobj2:
+            st2 = FileStorage(os.path.join(d, 'two.fs')) if case['kind'] == 'file' else MappingStorage('two')
+            run.st_off[id(st2)] = 1 << 40
+        run.st_off[id(st)] = 0
+        if case['kind'] == 'mvccmap':
+            run.st_off[id(st._data)] = 0
+        # the Lean model covers one database behind the MVCC adapter
+        with_trace = with_trace and not nobj2 and case['kind'] != 'mvccmap'
         hooks = []
         if with_trace:
             import c02_trace
@@ -584,10 +686,21 @@ def run_case(case, tmp, with_trace=False, schedule=None):
         box = {}
 
         def setup():
-            db = box['db'] = ZODB.DB(st, pool_size=case.get('pool', 7))
+            if nobj2:
+                dbs = {}
+                db = box['db'] = ZODB.DB(st, pool_size=case.get('pool', 7), databases=dbs, database_name='one')
+                box['db2'] = ZODB.DB(st2, pool_size=case.get('pool', 7), databases=dbs, database_name='two')
+            else:
+                db = box['db'] = ZODB.DB(st, pool_size=case.get('pool', 7))
             tm0 = transaction.TransactionManager()
             c = db.open(tm0)
             root = c.root()
+            if nobj2:
+                c2 = c.get_connection('two')
+                for i in range(nobj2):
+                    o = MinPO(0)
+                    c2.add(o)
+                    c2.root()['k%d' % i] = o
             if run.tracer:
                 run.tracer.write('setup', c, 0, 0)
             for i in range(case['nobj']):
@@ -625,6 +738,8 @@ def run_case(case, tmp, with_trace=False, schedule=None):
         for cm in run.commits:
             cm['ret'] = 0
             cm['thread'] = 'setup'
+        if nobj2 and not any(cm.get('off') for cm in run.commits):
+            raise InfraError('C02 set-up: no commit reached the second database')
         run.ev = 1
         if case.get('pct') and schedule is None:
             s = PCTScheduler(case['seed'], case['pct'][0], case['pct'][1], max_steps=400000)
@@ -646,7 +761,7 @@ def run_case(case, tmp, with_trace=False, schedule=None):
                 s.spawn(name, packer, run, db, case['progs'][name], t_pack)
             else:
                 s.spawn(name, worker, run, db, name, case['progs'][name], case['nobj'],
-                        case.get('explicit', False), stamps)
+                        case.get('explicit', False), stamps, nobj2)
         res = s.run(timeout=60)
         obs['deadlock'] = bool(res['deadlock'])
         obs['decisions'] = res['decisions']
@@ -657,10 +772,14 @@ def run_case(case, tmp, with_trace=False, schedule=None):
             rec.on_event = None
         if not obs['deadlock']:
             obs['revs'] = storage_revisions(st)
-            try:
-                db.close()
-            except Exception:   # noqa: BLE001
-                pass
+            if st2 is not None:
+                storage_revisions(st2, 1 << 40, obs['revs'])
+            for dbx in (db, box.get('db2')):
+                try:
+                    if dbx is not None:
+                        dbx.close()
+                except Exception:   # noqa: BLE001
+                    pass
     obs['epochs'] = [e for e in run.epochs if e['thread'] != 'setup']
     obs['commits'] = run.commits
     obs['errors'] = run.errors
@@ -713,7 +832,8 @@ def oracle(obs):
             out.append(('C02:mixed-snapshot', 'thread %s epoch@%d: oid %d was read at revision %x but oid %d '
                         'at a revision already superseded at %x — no single point of the commit order'
                         % (ep['thread'], ep['begin'], who_lo, lo, who_hi, hi)))
-        fresh = max([c['tid'] for c in commits if c['ret'] < ep['begin']] or [0])
+        fresh = max([c['tid'] for c in commits
+                     if c['ret'] < ep['begin'] and c.get('off', 0) == ep.get('off', 0)] or [0])
         if ep['reads'] and hi <= fresh and lo < hi:
             out.append(('C02:stale-snapshot', 'thread %s epoch@%d read oid %d at a revision superseded at %x '
                         'although commit %x had returned before the boundary'
@@ -734,7 +854,8 @@ def nontrivial(obs):
             continue
         last = max(r[3] for r in ep['reads'])
         for c in obs['commits']:
-            if c['thread'] not in (ep['thread'], 'setup') and ep['end_poll'] < c['ret'] < last:
+            if c['thread'] not in (ep['thread'], 'setup') and ep['end_poll'] < c['ret'] < last \
+                    and c.get('off', 0) == ep.get('off', 0):
                 return True
     return False
 
@@ -742,7 +863,7 @@ def nontrivial(obs):
 def canonical(case):
     return dict(kind=case['kind'], nobj=case['nobj'], progs=case['progs'], seed=case['seed'],
                 stick=case['stick'], explicit=case['explicit'], clock_step=case.get('clock_step', 1.0),
-                pct=case.get('pct'), blobs=case.get('blobs', []))
+                pct=case.get('pct'), blobs=case.get('blobs', []), nobj2=case.get('nobj2', 0))
 
 
 # ---------------------------------------------------------------- batches (multiprocessing)
@@ -765,6 +886,8 @@ def run_batch(args):
         count('kind:' + case['kind'])
         if case.get('blobs'):
             count('with-blobs')
+        if case.get('nobj2'):
+            count('with-second-database')
         count('strategy:' + ('pct%d' % case['pct'][0] if case.get('pct') else 'random'))
         count('threads:%d' % len(case['progs']))
         if 'pk' in case['progs']:
